@@ -24,3 +24,16 @@ mod fname {
     use super::common::*;
     include!(concat!(env!("MRECORDLOG_VERIF_HARNESS_DIR"), "/fname.rs"));
 }
+
+#[allow(dead_code, unused_imports, unused_variables, unused_mut, unused_assignments, clippy::all)]
+mod damage {
+    use super::common::*;
+    use super::stream::{blocks_for, same_bytes};
+    include!(concat!(env!("MRECORDLOG_VERIF_HARNESS_DIR"), "/damage.rs"));
+}
+
+#[allow(dead_code, unused_imports, unused_variables, unused_mut, unused_assignments, clippy::all)]
+mod record_h {
+    use super::common::*;
+    include!(concat!(env!("MRECORDLOG_VERIF_HARNESS_DIR"), "/record.rs"));
+}
